@@ -23,7 +23,11 @@
    Each instruction performs AT MOST ONE of: a lock operation, a socket call, a
    read-or-write of a shared attribute relevant to C13 (socket map,
    active_channels, channel.socket, channel._fileno, connected, will_close,
-   close_when_flushed, total_outbufs_len, requests).  Which Python statement an
+   close_when_flushed, total_outbufs_len, requests).  In particular the load of
+   `self.socket` and the call made on the loaded object are two instructions
+   (IRecv/IRecvCall, IFlush/IFlushSend, IExpt/IExptCall, ISockClose/
+   ISockCloseCall): another thread may close the socket in between, and the call
+   then gets EBADF from the kernel instead of an AttributeError.  Which Python statement an
    instruction stands for is written next to its constructor and, per method,
    in the "programs" section.  send_continue() as reached from received() (I/O
    thread) always flushes with do_close=True; as reached from service() (worker)
@@ -42,9 +46,12 @@
      carrying the three facts that loop reads (expect_continue and
      headers_finished; completed; empty).  All parser outcomes are included.
    * The application is the environment: [IApp] takes write / finish / raise.
-   * One worker per channel (at most one worker is inside service() of a
-     channel: the dispatcher holds a channel at most once -- C04/C14's claim,
-     assumed here); the pool's queue is the per-channel flag [queued].
+   * One worker per channel; the pool's queue is the per-channel flag [queued].
+     With several pool workers the tail of service() after add_task (release
+     of requests_lock, `if self.connected: pull_trigger()`, last_activity) can
+     overlap the next service() of the same channel on another worker; those
+     steps touch nothing C13 speaks about and commute to the left, the model runs
+     them first.  (The dispatcher holds a channel at most once: C04/C14.)
    * The trigger's "pulled" state is dropped: select may report the trigger at
      any time, and may time out.  C13 is a safety property; wake-ups are C05's.
    * maintenance() is "the I/O thread may set will_close on any channel with
@@ -144,7 +151,8 @@ Inductive instr :=
 | ITrigClose                    (* BaseWSGIServer.close: self.trigger.close() (del_channel + os.close) *)
 | ILstClose                     (* wasyncore.dispatcher.close(self): del_channel; socket.close() *)
 (* -- channel, I/O side *)
-| IRecv (c : chan)              (* handle_read: self.recv(recv_bytes) -> socket.recv, with the two ladders around it *)
+| IRecv (c : chan)              (* handle_read: self.recv(recv_bytes) -> dispatcher.recv: `self.socket` is loaded *)
+| IRecvCall (c : chan)          (* ... .recv(buffer_size) is called on it, with the two ladders around it *)
 | ISetConnF (c : chan)          (* handle_read: `else: self.connected = False` *)
 | IRcvChk (c : chan) (items : list item)  (* received: `if self.will_close or self.close_when_flushed: return False` *)
 | IRcvLoop (c : chan) (items : list item) (* received: top of one iteration up to the send_continue test *)
@@ -152,13 +160,14 @@ Inductive instr :=
 | IHwChoose (c : chan)          (* handle_write: `if not self.requests` / `elif total_outbufs_len >= send_bytes` *)
 | IHwNotify (c : chan)          (* _flush_some_if_lockable: `if total_outbufs_len < outbuf_high_watermark: notify()` *)
 | IHwTail (c : chan)            (* handle_write: close_when_flushed / will_close tests *)
-| IExpt (c : chan)              (* handle_expt_event: getsockopt(SO_ERROR) if socket is not None else 1 *)
+| IExpt (c : chan)              (* handle_expt_event: `... if self.socket is not None else 1` *)
+| IExptCall (c : chan)          (* self.socket.getsockopt(SOL_SOCKET, SO_ERROR) *)
 (* -- send_continue / _flush_some (either side) *)
 | IContPre (c : chan)           (* send_continue: request.expect_continue = False *)
 | IContAppend (c : chan)        (* outbufs[-1].append(payload); counts; sent_continue = True *)
-| IFlushStart (c : chan) (dc : bool) (* _flush_some: sent = 0 *)
-| IFlush (c : chan) (dc : bool) (* one turn of the inner loop: outbuf.__len__(); chunk = outbuf.get(sendbuf_len) *)
-| IFlushSend (c : chan) (dc : bool) (m : nat) (* self.send(chunk, do_close=dc) with len(chunk) = m; outbuf.skip(num_sent); counts *)
+| IFlushStart (c : chan) (dc : bool) (* _flush_some: sent = 0; outbuf = self.outbufs[0]; outbuflen = outbuf.__len__() *)
+| IFlush (c : chan) (dc : bool) (olen : nat) (* `while outbuflen > 0:` (outbuflen = olen, a LOCAL); chunk = outbuf.get(sendbuf_len) *)
+| IFlushSend (c : chan) (dc : bool) (m olen : nat) (* self.send(chunk, do_close=dc) with len(chunk) = m; outbuf.skip(num_sent); counts; outbuflen -= num_sent *)
 (* -- handle_close *)
 | IHClose (c : chan)            (* entry of HTTPChannel.handle_close (pushes the sequence below) *)
 | ICloseBufs (c : chan)         (* for outbuf in outbufs: close(); total_outbufs_len = 0; connected = False *)
@@ -168,7 +177,8 @@ Inductive instr :=
 | IDelMapDo (c : chan)          (* del map[fd] *)
 | IFilenoNone (c : chan)        (* self._fileno = None *)
 | IDelAct (c : chan) (v : bool) (* `if fd in ac: del ac[fd]` (v: the fd read at the top was not None) *)
-| ISockClose (c : chan)         (* `if self.socket is not None: self.socket.close()` *)
+| ISockClose (c : chan)         (* `if self.socket is not None:` *)
+| ISockCloseCall (c : chan)     (* self.socket.close() *)
 | ISockNone (c : chan)          (* self.socket = None (only if the test above passed) *)
 (* -- locks *)
 | IAcqO (c : chan)              (* outbuf_lock.acquire() (re-entrant) *)
@@ -387,7 +397,7 @@ Definition send_continue (c : chan) : list instr := send_continue_dc c true.
 (* the event handlers as dispatched by wasyncore for a channel *)
 Definition chan_event (k : evk) (c : chan) : list instr :=
   match k with
-  | EvRead => [IRecv c]          (* handle_read_event -> handle_read *)
+  | EvRead => [IRecv c]          (* handle_read_event -> handle_read -> self.recv *)
   | EvWrite => [IHwChoose c]     (* handle_write_event -> handle_write *)
   | EvExpt => [IExpt c]          (* handle_expt_event *)
   end.
@@ -539,10 +549,13 @@ Definition exec (g : cfg) (t : tid) (i : instr) (a : answer) (s : state) : resul
          ((if lst_in_map s then [LMapDel t FL] else []) ++ (if lst_open s then [LListenerClosed] else []))
   (* ---------------- channel, I/O side ---------------- *)
   | IRecv c =>
+    match sock (getc s c) with
+    | SNone => Raise s XAttributeError []
+    | _ => Norm s [IRecvCall c] []
+    end
+  | IRecvCall c =>
     let x := getc s c in
     match sock x with
-    | SNone => Raise s XAttributeError []
-    | SClosed => Norm s (hclose c ++ [ISetConnF c]) [LCaught t (XOSError EBADF)]
     | SOpen =>
       match a with
       | ARecv REof => Norm s (hclose c ++ [ISetConnF c]) [LEnv c a]
@@ -556,6 +569,8 @@ Definition exec (g : cfg) (t : tid) (i : instr) (a : answer) (s : state) : resul
         end
       | _ => Blocked
       end
+    | _ => (* the socket object has been closed meanwhile: EBADF from the kernel, in _DISCONNECTED *)
+      Norm s (hclose c ++ [ISetConnF c]) [LCaught t (XOSError EBADF)]
     end
   | ISetConnF c => Norm (setc s c (upd_conn (getc s c) false)) [] []
   | IRcvChk c items =>
@@ -594,10 +609,12 @@ Definition exec (g : cfg) (t : tid) (i : instr) (a : answer) (s : state) : resul
     let x1 := if cwf x && (pend x =? 0)%Z then upd_flags x true false else x in
     if wc x1 then Norm (setc s c x1) (hclose c) [] else Norm (setc s c x1) [] []
   | IExpt c =>
-    let x := getc s c in
-    match sock x with
+    match sock (getc s c) with
     | SNone => Norm s (hclose c) []
-    | SClosed => Raise s (XOSError EBADF) []
+    | _ => Norm s [IExptCall c] []
+    end
+  | IExptCall c =>
+    match sock (getc s c) with
     | SOpen =>
       match a with
       | AExpt (XRaise e) => Raise s (XOSError e) [LEnv c a]
@@ -605,6 +622,7 @@ Definition exec (g : cfg) (t : tid) (i : instr) (a : answer) (s : state) : resul
       | AExpt XZero => Norm s [] [LEnv c a]
       | _ => Blocked
       end
+    | _ => Raise s (XOSError EBADF) []
     end
   (* ---------------- send_continue / _flush_some ---------------- *)
   | IContPre c =>
@@ -616,23 +634,24 @@ Definition exec (g : cfg) (t : tid) (i : instr) (a : answer) (s : state) : resul
     else
       let x1 := upd_bufs x (bufc x) (pend x + 25)%Z (buf x + 25) (wire x) in
       Norm (setc s c (upd_req x1 (nreq x1) (pexp x1) true (queued x1))) [] []
-  | IFlushStart c dc => Norm (setth s t (set_lsent me false)) [IFlush c dc] []
-  | IFlush c dc =>
+  | IFlushStart c dc => Norm (setth s t (set_lsent me false)) [IFlush c dc (buf (getc s c))] []
+  | IFlush c dc olen =>
     let x := getc s c in
-    if buf x =? 0 then Norm s [] [] else Norm s [IFlushSend c dc (Nat.min (buf x) (sndbuf g))] []
-  | IFlushSend c dc m =>
+    if olen =? 0 then Norm s [] []
+    else match sock x with
+         | SNone => Raise s XAttributeError []        (* dispatcher.send: self.socket is None *)
+         | _ => Norm s [IFlushSend c dc (Nat.min (buf x) (sndbuf g)) olen] []
+         end
+  | IFlushSend c dc m olen =>
     let x := getc s c in
       match sock x with
-      | SNone => Raise s XAttributeError []
-      | SClosed =>   (* EBADF from the kernel: in _DISCONNECTED *)
-        if dc then Norm s (hclose c) [LCaught t (XOSError EBADF)] else Norm s [] [LCaught t (XOSError EBADF)]
       | SOpen =>
         match a with
         | ASend (SOk n) =>
           if (0 <? n) && (n <=? m) then
             if n <=? buf x then
               Norm (setth (setc s c (upd_bufs x (bufc x) (pend x - Z.of_nat n)%Z (buf x - n) (wire x + n))) t (set_lsent me true))
-                   [IFlush c dc] [LEnv c a; LWire c n]
+                   [IFlush c dc (olen - n)] [LEnv c a; LWire c n]
             else
               (* the other flusher got there first: outbuf.skip(num_sent) raises ValueError -- after the kernel took the bytes *)
               Raise (setc s c (upd_bufs x (bufc x) (pend x) (buf x) (wire x + n))) XValueError [LEnv c a; LWire c n]
@@ -648,6 +667,8 @@ Definition exec (g : cfg) (t : tid) (i : instr) (a : answer) (s : state) : resul
           end
         | _ => Blocked
         end
+      | _ =>   (* the socket object has been closed meanwhile: EBADF from the kernel, in _DISCONNECTED *)
+        if dc then Norm s (hclose c) [LCaught t (XOSError EBADF)] else Norm s [] [LCaught t (XOSError EBADF)]
       end
   (* ---------------- handle_close ---------------- *)
   | IHClose c => Norm s (hclose_body c) [LHClose t c]
@@ -672,11 +693,13 @@ Definition exec (g : cfg) (t : tid) (i : instr) (a : answer) (s : state) : resul
     let x := getc s c in
     if v && in_act x then Norm (setc s c (upd_act x false)) [] [LActDel t c] else Norm s [] []
   | ISockClose c =>
-    let x := getc s c in
-    match sock x with
+    match sock (getc s c) with
     | SNone => Norm s [] []
-    | _ => Norm (setc s c (upd_sock x SClosed (S (nclose x)))) [ISockNone c] [LClose t c]
+    | _ => Norm s [ISockCloseCall c; ISockNone c] []
     end
+  | ISockCloseCall c =>
+    let x := getc s c in
+    Norm (setc s c (upd_sock x (match sock x with SNone => SNone | _ => SClosed end) (S (nclose x)))) [] [LClose t c]
   | ISockNone c => let x := getc s c in Norm (setc s c (upd_sock x SNone (nclose x))) [] []
   (* ---------------- locks ---------------- *)
   | IAcqO c =>
@@ -889,8 +912,7 @@ Definition trace (g : cfg) (sched : list choice) : list label := snd (run_tr g s
 Definition wants (s : state) (t : tid) (i : instr) : bool :=
   match i with
   | ISelWait _ _ _ | IAccept | ISetOpts _ | IInitGso _ | IInitSbl _ | ICloseBufs _ | IApp _ | IErrTask _ => true
-  | IRecv c | IExpt c => match sock (getc s c) with SOpen => true | _ => false end
-  | IFlushSend c _ _ => match sock (getc s c) with SOpen => true | _ => false end
+  | IRecvCall c | IExptCall c | IFlushSend c _ _ _ => match sock (getc s c) with SOpen => true | _ => false end
   | _ => false
   end.
 
@@ -903,8 +925,7 @@ Definition is_yield (s : state) (t : tid) (i : instr) : bool :=
   | ITryAcqO _ | IAcqR _ | IRelR _ | KRelR _ | IWaitO _ | IWake _ _ | INotifyO _ | IPull _ | IAddTask _ => true
   | IAcqO c => match olock (getc s c) with Some (o, _) => negb (tid_eqb o t) | None => true end
   | IRelO c | KRelO c => final_release (olock (getc s c))
-  | IRecv c | IExpt c | ISockClose c => match sock (getc s c) with SNone => false | _ => true end
-  | IFlushSend c _ _ => match sock (getc s c) with SNone => false | _ => true end
+  | IRecvCall _ | IExptCall _ | ISockCloseCall _ | IFlushSend _ _ _ _ => true
   | _ => false
   end.
 
